@@ -87,8 +87,30 @@ def replay_runs(sc, worlds, steps, repo='/repo'):
         rank = {v: i for i, v in enumerate(mts)}
         for st in steps:
             w = worlds[str(st['epoch'])]
-            _apply_world(root, w['files'], w['cmds'], rank)
             env = {}
+            if st['mode'] == 'ok_changing':
+                # the (virtual) script changes the tree from epoch_before to epoch while it runs
+                w0 = worlds[str(st['epoch_before'])]
+                _apply_world(root, w0['files'], w0['cmds'], rank)
+                sched = ['poll 0 t0.1 all', 'poll 2 t0.4 1', 'poll 0 t0.1 all', 'poll 2 t0.4 1', 'poll 0 t0.1 all', 'poll 2 -', 'poll 0 t0.1 all']
+                for p, ent in w['files'].items():
+                    if p.endswith('.checksums') or p.endswith('/.zinoma'):
+                        continue
+                    e0 = w0['files'].get(p, {'kind': 'absent'})
+                    if ent['kind'] == 'file' and (e0['kind'] != 'file' or e0.get('chunks') != ent.get('chunks') or e0.get('mtime') != ent.get('mtime')) and os.path.isdir(os.path.dirname(root + p)):
+                        sched.append('write %s %s' % (root + p, ''.join('%08x' % c for c in ent['chunks'])))
+                    elif ent['kind'] == 'absent' and e0['kind'] == 'file':
+                        sched.append('remove %s' % (root + p))
+                sched += ['exitscript 0 echo t', 'poll 2 -', 'drain']
+                r = run_native(binpath, root + '/p', ['t'], sched, timeout=60)
+                spawned = any(l.startswith('proc_spawn') and 'echo t"' in l for l in r['log'])
+                obs.append({'rc': r['rc'], 'script_spawned': spawned, 'skipped': 't - Build skipped' in r['stderr'],
+                            'state_file_exists': os.path.exists(root + '/p/.zinoma/t.checksums'), 'stderr_tail': r['stderr'][-300:], 'changed_during_script': [l for l in sched if l.startswith(('write', 'remove'))]})
+                continue
+            if st.get('keep_tree'):
+                pass
+            else:
+                _apply_world(root, w['files'], w['cmds'], rank)
             if st['mode'] == 'crash_in_script':
                 env['ZX_CRASH_ON_SPAWN'] = 'echo t'
             if st['mode'] == 'fail':
